@@ -53,9 +53,12 @@ type Dev struct {
 	ReadFn func() int
 	// OnWrite, when set, is called (without the lock held) after a successful write.
 	OnWrite func(v int)
-	writes  []WriteRec
-	reads   int
-	t0      time.Time
+	// BeforeWrite, when set, is called (without the lock held) before a write is processed; it lets a
+	// scenario act in the middle of a control cycle (e.g. cancel the controller while a write is in flight).
+	BeforeWrite func(v int)
+	writes      []WriteRec
+	reads       int
+	t0          time.Time
 	// file != "": the device lives in plain files that /bin/sh scripts of a cmd fan read and write
 	// (<file> value, <file>.log write attempts, <file>.reads read count, <file>.wmode / .rmode fault modes)
 	file string
@@ -114,6 +117,7 @@ func (d *Dev) Set(v int) {
 	d.val = v
 	d.mu.Unlock()
 }
+func (d *Dev) SetBeforeWrite(f func(v int)) { d.mu.Lock(); d.BeforeWrite = f; d.mu.Unlock() }
 func (d *Dev) SetWriteMode(m int) {
 	if d.file != "" {
 		_ = os.WriteFile(d.file+".wmode", []byte(strconv.Itoa(m)), 0644)
@@ -215,6 +219,12 @@ var ErrWriteRefused = errors.New("verif: device refused the write (EINVAL)")
 
 // VWrite implements util.VDev.
 func (d *Dev) VWrite(v int) error {
+	d.mu.Lock()
+	before := d.BeforeWrite
+	d.mu.Unlock()
+	if before != nil {
+		before(v)
+	}
 	d.mu.Lock()
 	mode := d.WriteMode
 	if mode == WriteOK {
